@@ -165,11 +165,12 @@ Definition W_all : gvar -> bool := fun _ => true.
 (* the parse state and every per-thread global *)
 Definition W_reg : gvar -> bool := fun g => Nat.eqb g GParse || Nat.leb 100 g.
 
-(* BEFORE THE FIX (engine up to commit 94e8b5c^..55a366b^): every global process-wide *)
+(* BEFORE THE FIXES (engine before commits 55a366b and d6f8f69): every global process-wide *)
 Definition gmap_before_fix : gvar -> gvar := fun g => g.
-(* FAITHFUL (current code): the viral-propagation registry is a ContextVar = one cell per thread (100 + 10*i + GRegistry);
-   VirtualCounter, TimePeriodConfig and Exceptions.dataset_output are still process-wide *)
-Definition gmap_impl (i : tid) : gvar -> gvar := fun g => if Nat.eqb g GRegistry then 100 + 10 * i + g else g.
+(* FAITHFUL (current code): the viral-propagation registry and Exceptions.dataset_output are ContextVars = one cell per thread
+   (100 + 10*i + g); VirtualCounter and TimePeriodConfig are still process-wide *)
+Definition gmap_impl (i : tid) : gvar -> gvar :=
+  fun g => if Nat.eqb g GRegistry || Nat.eqb g GDsOut then 100 + 10 * i + g else g.
 (* SPEC (the proposed repair): registry, counters, representation and dataset_output are per-thread (thread-local /
    contextvars); thread i's copy of global g is 100 + 10*i + g.  The parse state stays shared under parser_lock. *)
 Definition gmap_spec (i : tid) : gvar -> gvar := fun g => if Nat.eqb g GParse then g else 100 + 10 * i + g.
